@@ -115,33 +115,57 @@ def flatten(r):
     if isinstance(r, (tuple, list)): return [x for y in r for x in flatten(y)]
     return [r]
 
+def make_leaf(leaf):
+    '''point: an arbitrary value per point (PointArg); arg: a function.Argument (one value, point axes prepended by the lowering protocol)'''
+    if leaf == 'arg': return lambda n, shape, dtype, r: function.Argument(n, shape, dtype=dtype)
+    return lambda n, shape, dtype, r: fn.PointArg(n, shape, dtype)
+
+def announced_arguments_sound(fa, points):
+    '''every argument the lowered expression reads must be announced by the function array with the same shape and dtype'''
+    ann = dict(fa.arguments)
+    bad = []
+    for a in fn.lower(fa, points).arguments:
+        if isinstance(a, ev.Argument):
+            shape = tuple(int(n.value) if isinstance(n, ev.Constant) else None for n in a.shape)
+            if a.name not in ann: bad.append(f'{a.name} is read but not announced')
+            elif (tuple(ann[a.name][0]), ann[a.name][1]) != (shape, a.dtype): bad.append(f'{a.name} announced as {ann[a.name]} but read as {(shape, a.dtype.__name__)}')
+    return bad
+
 def run_case(item):
-    fname, ci, points = item
+    fname, ci, points = item[:3]
+    leaf = item[3] if len(item) > 3 else 'point'
     lam = (CASES[fname] if fname != 'compose' else COMPOSE)[ci]
-    key = f'{fname}[{ci}] points_shape={points}'
+    key = f'{fname}[{ci}] points_shape={points}' + (' leaves=Argument' if leaf == 'arg' else '')
     res = dict(key=key, fname=fname, viol=[], unconfirmed=[], q=dict(exact_unsat=0, margin_unsat=0, sat=0, unknown=0, trivial=0), paths=0, status='ok', nontrivial=False)
     # shape / kind oracle: real numpy on concrete dummies
     D = dummies()
     with numpy.errstate(all='ignore'):
         want = flatten(lam(D))
     want_struct = [({'b': 'b', 'i': 'i', 'u': 'i', 'f': 'f', 'c': 'c'}[numpy.asarray(w).dtype.kind], numpy.shape(w)) for w in want]
-    fo = ops_ns(lambda n, shape, dtype, r: fn.PointArg(n, shape, dtype))
+    fo = ops_ns(make_leaf(leaf))
     try:
         fres = flatten(lam(fo))
     except Exception as ex:
-        res['viol'].append((f'{key}: building the function array raised {type(ex).__name__}: {ex}'[:300], dict(fname=fname, case=ci, points=list(points), kind='build'))); return res
+        res['viol'].append((f'{key}: building the function array raised {type(ex).__name__}: {ex}'[:300], dict(fname=fname, case=ci, points=list(points), leaf=leaf, kind='build'))); return res
     for k, (fa, ws) in enumerate(zip(fres, want_struct)):
         if not isinstance(fa, function.Array): fa = function.Array.cast(fa)
         if (fn.kind(fa.dtype), tuple(fa.shape)) != ws:
-            res['viol'].append((f'{key}: function array announces {(fa.dtype.__name__, tuple(fa.shape))}, NumPy gives {ws}', dict(fname=fname, case=ci, points=list(points), kind='static'))); return res
+            res['viol'].append((f'{key}: function array announces {(fa.dtype.__name__, tuple(fa.shape))}, NumPy gives {ws}', dict(fname=fname, case=ci, points=list(points), leaf=leaf, kind='static'))); return res
     fres = [function.Array.cast(fa) for fa in fres]
+    if leaf == 'arg':
+        try:
+            bad = [b for fa in fres for b in announced_arguments_sound(fa, points)]
+        except Exception as ex:
+            bad = []
+        if bad:
+            res['viol'].append((f'{key}: announced arguments are unsound: {"; ".join(bad[:3])}', dict(fname=fname, case=ci, points=list(points), leaf=leaf, kind='arguments'))); return res
     try:
         with treelog.set(treelog.NullLog()):
             f = with_timeout(60, lambda: sym_compile(tuple(fn.lower(fa, points) for fa in fres)))
     except Timeout:
         res['status'] = 'compile_timeout'; return res
     except Exception as ex:
-        res['viol'].append((f'{key}: lowering/compiling raised {type(ex).__name__}: {ex}'[:300], dict(fname=fname, case=ci, points=list(points), kind='lower'))); return res
+        res['viol'].append((f'{key}: lowering/compiling raised {type(ex).__name__}: {ex}'[:300], dict(fname=fname, case=ci, points=list(points), leaf=leaf, kind='lower'))); return res
     # operands that the lowering uses without point axes (e.g. index arrays of take) get one value for all points
     lowered_shapes = {}
     for fa in fres:
@@ -180,7 +204,7 @@ def run_case(item):
             for pi, p in enumerate(numpy.ndindex(*points)):
                 ref = SArray.wrap(refs[pi][k]); got = o_k[p]
                 if solve.structure(ref) != solve.structure(got):
-                    res['viol'].append((f'{key}: value at point {p} has structure {solve.structure(got)}, NumPy gives {solve.structure(ref)}', dict(fname=fname, case=ci, points=list(points), kind='structure'))); continue
+                    res['viol'].append((f'{key}: value at point {p} has structure {solve.structure(got)}, NumPy gives {solve.structure(ref)}', dict(fname=fname, case=ci, points=list(points), leaf=leaf, kind='structure'))); continue
                 try:
                     v = solve.equiv(ref, got, pc=P.pc, defined=d0, side=P.side, timeout_ms=10000, margin=1e-9, budget_s=15)
                 except Unsupported as ex:
@@ -188,16 +212,16 @@ def run_case(item):
                 for kk, n in v.counts().items(): res['q'][kk] += n
                 for idx, m in v.models[:1]:
                     cv = solve.concretize(m, vals)
-                    ok, detail = replay(fname, ci, points, cv)
-                    if ok: res['viol'].append((f'{key}: differs from NumPy at point {p}: {detail}'[:600], dict(fname=fname, case=ci, points=list(points), kind='value', operands=tv.tolist(cv))))
+                    ok, detail = replay(fname, ci, points, cv, leaf)
+                    if ok: res['viol'].append((f'{key}: differs from NumPy at point {p}: {detail}'[:600], dict(fname=fname, case=ci, points=list(points), leaf=leaf, kind='value', operands=tv.tolist(cv))))
                     else: res['unconfirmed'].append(f'{key}: model did not reproduce ({detail})')
     res['nontrivial'] = res['q']['exact_unsat'] + res['q']['sat'] + res['q']['margin_unsat'] > 0
     return res
 
-def replay(fname, ci, points, operands):
+def replay(fname, ci, points, operands, leaf='point'):
     '''real nutils evaluation with real numpy vs numpy applied per point'''
     lam = (CASES[fname] if fname != 'compose' else COMPOSE)[ci]
-    fo = ops_ns(lambda n, shape, dtype, r: fn.PointArg(n, shape, dtype))
+    fo = ops_ns(make_leaf(leaf))
     try:
         with treelog.set(treelog.NullLog()), numpy.errstate(all='ignore'), warnings.catch_warnings():
             warnings.simplefilter('ignore')
@@ -237,9 +261,9 @@ def main(argv=None):
     if args.replay:
         import json
         d = json.load(open(args.replay))['replay']
-        if d['kind'] == 'value': ok, detail = replay(d['fname'], d['case'], tuple(d['points']), d['operands'])
+        if d['kind'] == 'value': ok, detail = replay(d['fname'], d['case'], tuple(d['points']), d['operands'], d.get('leaf', 'point'))
         else:
-            r = run_case((d['fname'], d['case'], tuple(d['points']))); ok, detail = bool(r['viol']), str(r['viol'][:1])
+            r = run_case((d['fname'], d['case'], tuple(d['points']), d.get('leaf', 'point'))); ok, detail = bool(r['viol']), str(r['viol'][:1])
         print('REPRODUCED' if ok else 'not reproduced', detail); return 1 if ok else 0
     run = harness.Run(PID, 'translation_validation', args,
         'Each NumPy call signature is applied to per-point symbolic function-array leaves through nutils\' real NEP-13/18 dispatch, lowered with points_shape (), (2,) [and (2,2)], compiled and run on z3 terms; '
@@ -259,9 +283,11 @@ def main(argv=None):
     for fname, lams in CASES.items():
         if fname not in table and fname not in ('__getitem__', 'operators'): continue
         for ci in range(len(lams)):
-            for p in (pts if args.tier == 'thorough' or ci < 2 else [rng.choice(pts)]): items.append((fname, ci, p))
+            for p in (pts if args.tier == 'thorough' or ci < 2 else [rng.choice(pts)]): items.append((fname, ci, p, 'point'))
+            # the same call on function.Argument leaves: one value for all points, point axes prepended by the lowering; announced arguments checked
+            for p in (pts[1:] if args.tier == 'thorough' else [(2,)]): items.append((fname, ci, p, 'arg'))
     for ci in range(len(COMPOSE)):
-        for p in (pts if args.tier == 'thorough' else [(2,)]): items.append(('compose', ci, p))
+        for p in (pts if args.tier == 'thorough' else [(2,)]): items.append(('compose', ci, p, 'point')); items.append(('compose', ci, p, 'arg'))
     if args.only: items = [it for it in items if args.only in it[0]]
     run.bounds = dict(dispatch_table_entries=len(table), entries_with_signatures=len(table) - len(uncovered), declined=declined, stale_signature_names=stale, cases=len(items), points_shapes=[list(p) for p in pts], operand_shapes={k: v[0] for k, v in SPEC.items()})
     with harness.FuncTrace() as ft:
